@@ -54,13 +54,14 @@ Qed.
 Lemma ex_pp_sees : ex_stop (pp_cnt ex_pp) = true.
 Proof. vm_compute. reflexivity. Qed.
 
-(* ------------------------------------------------------------------ ALM: the counter-run to "at most ONE further inner solve"
+(* ------------------------------------------------------------------ ALM: the former counter-run to "no further inner solve"
    min -x  s.t.  x in C = [0,1],  g(x) = x in D = (-inf, 1/2];  x0 = 1, y0 = 0, Σ0 = 0.01, ProjGradNorm, ALM defaults (Δ = 10).
    stop() is called inside evaluation #0 (the first evaluation of the first inner solve) and stays set.  x = 1 is stationary for
-   ψ(·; y, Σ) as long as y + Σ/2 <= 1, so inner solves 0, 1, 2 end at their FIRST stop check with Converged (ε = 0), which ranks above
-   Interrupted; ALM does not look at the flag, updates y and Σ and starts the next inner solve; only solve 3 (y + Σ/2 = 5.555) is
-   not converged at its first check and returns Interrupted.  Four inner solves, all of them one-check solves.
-   The real code does exactly this (harness/drv_solve: 4 outer iterations, 41 user-function evaluations after the request). *)
+   ψ(·; y, Σ) as long as y + Σ/2 <= 1, so inner solve 0 ends at its FIRST stop check with Converged (ε = 0), which ranks above
+   Interrupted.  ALMSolver::stop() used to forward the request to the inner solver only: the outer loop then updated y and Σ and
+   started inner solves 1, 2 (Converged again) and 3 (Interrupted) — four inner solves, 41 user-function evaluations after the
+   request on the real code.  Since the repair the outer loop reads its own flag after the inner solve: ONE inner solve (one-check),
+   ALM is not converged (slack error 1/2), not out of time / iterations, and returns Interrupted after outer iteration 0. *)
 From Alpaqa Require Import Alm AlmCompose AlmPanoc Corr_PANOC Corr_ALMPANOC.
 Local Open Scope float_scope.
 Definition ex_alm_case : apcase :=
@@ -74,7 +75,14 @@ Definition ex_alm_summary :=
                      map (fun lg => match lg with Done o => (c_polls (out_cnt o), c_dir (out_cnt o)) | _ => (99, 99)%nat end) (co_logs co))
   | None => None
   end.
-Lemma ex_alm_four_solves :
-  ex_alm_summary = Some (Interrupted, [(Converged, 0); (Converged, 0); (Converged, 0); (Interrupted, 0)]%nat,
-                         [(1, 0); (1, 0); (1, 0); (1, 0)]%nat).
+(* what the outer loop read from its own flag after each inner solve, and outer_iterations *)
+Definition ex_alm_flags :=
+  match run_ap ex_alm_case with
+  | Some co => Some (map (fun rc => ir_stop (it_res rc)) (co_trace co), f_outer (co_final co))
+  | None => None
+  end.
+Lemma ex_alm_flag_read : ex_alm_flags = Some ([true], 1%nat).
+Proof. vm_compute. reflexivity. Qed.
+Lemma ex_alm_one_solve :
+  ex_alm_summary = Some (Interrupted, [(Converged, 0)]%nat, [(1, 0)]%nat).
 Proof. vm_compute. reflexivity. Qed.
